@@ -227,7 +227,15 @@ var (
 	SetFieldsOfUnexported   = wire.NewSet(NewS, wire.FieldsOf(new(S), "b"))
 	SetBindUnexportedIface  = wire.NewSet(NewImpl, wire.Bind(new(iface), new(Impl)), UseIface)
 	SetAllExported          = wire.NewSet(ProvideString, NewS, UseS)
+	SetValuePrivateKey      = wire.NewSet(wire.Value(S{A: 1, b: "x"}), UseS)
+	SetValuePrivateSelector = wire.NewSet(wire.Value(SVar.b))
+	SetValuePrivateVar      = wire.NewSet(wire.Value(hiddenVar))
+	SetValueExportedOnly    = wire.NewSet(wire.Value(S{A: 2}), UseS)
 )
+
+var SVar = S{A: 3, b: "sel"}
+
+var hiddenVar = "hv"
 `
 	type ac struct{ name, set, result string }
 	var out []*h.Case
@@ -241,6 +249,10 @@ var (
 		{"fieldsof-unexported-field", "lib.SetFieldsOfUnexported", "string"},
 		{"bind-unexported-interface", "lib.SetBindUnexportedIface", "lib.Out"},
 		{"all-exported", "lib.SetAllExported", "lib.Out"},
+		{"value-unexported-field-key", "lib.SetValuePrivateKey", "lib.Out"},
+		{"value-unexported-field-selector", "lib.SetValuePrivateSelector", "string"},
+		{"value-unexported-var", "lib.SetValuePrivateVar", "string"},
+		{"value-exported-only", "lib.SetValueExportedOnly", "lib.Out"},
 	} {
 		files := map[string]string{
 			"lib/lib.go": lib,
@@ -292,6 +304,24 @@ func c01LayoutCases() []*h.Case {
 	return out
 }
 
+// aliased imports used only by copied code: the generated file must import them under a name its code uses.
+func c01AliasCases() []*h.Case {
+	lib := "package lib\n\nvar Num = 5\n\ntype T struct{ N int }\n\nfunc Twice(x int) int { return 2 * x }\n"
+	hdr := "//go:build wireinject\n// +build wireinject\n\npackage p\n\nimport (\n\txl \"{{ROOT}}/lib\"\n\t\"github.com/google/wire\"\n)\n\n"
+	bodies := map[string]string{
+		"value-only":          "func Init() int {\n\tpanic(wire.Build(wire.Value(xl.Num)))\n}\n",
+		"copied-decl-only":    "func Init() int {\n\tpanic(wire.Build(provide))\n}\n\nfunc provide() int { return xl.Twice(xl.Num) }\n",
+		"copied-var-only":     "func Init() int {\n\tpanic(wire.Build(wire.Value(7)))\n}\n\nvar copied = xl.T{N: xl.Num}\n",
+		"value-then-signature": "func Init() int {\n\tpanic(wire.Build(wire.Value(xl.Num)))\n}\n\nfunc Init2() xl.T {\n\tpanic(wire.Build(wire.Value(xl.T{N: 1})))\n}\n",
+	}
+	var out []*h.Case
+	for name, body := range bodies {
+		files := map[string]string{"lib/lib.go": lib, "wire.go": hdr + body, "driver.go": "package p\n\nvar _ func() int = Init\n"}
+		out = append(out, &h.Case{ID: "C01/aliased-import/" + name, Files: files, Build: true, Judge: judgeC01(true)})
+	}
+	return out
+}
+
 func checkC01(c *h.Check) {
 	thorough := c.Tier == "thorough"
 	var cases []*h.Case
@@ -325,6 +355,9 @@ func checkC01(c *h.Check) {
 	for _, cs := range c01LayoutCases() {
 		add(cs)
 	}
+	for _, cs := range c01AliasCases() {
+		add(cs)
+	}
 	results := c.JudgeAll(cases)
 	acc, rej, comp := 0, 0, 0
 	for _, r := range results {
@@ -348,7 +381,7 @@ func checkC01(c *h.Check) {
 	c.Coverage["accepted"] = acc
 	c.Coverage["rejected"] = rej
 	c.Coverage["compiled_with_wire_gen"] = comp
-	c.Coverage["rule"] = fmt.Sprintf("%d result type kinds (every basic kind, named and unnamed composites, aliases, generic instances incl. with lib type arguments, types of another package in value/pointer/slice/map-key/func positions, unsafe.Pointer, error) x provider shape (4) x injector shape (>= provider's needs) x %d parameter forms (none, named, blank, unnamed, variadic named/blank, lib-typed variadic, parameters named err/cleanup) x provider in the injector's package or another one; accessibility family: sets declared in another package that list an unexported provider, an unexported struct type, \"*\" or a name over unexported fields, FieldsOf an unexported field, a binding to an unexported interface; layout family: import needed only by a parameter type / zero value / value expression, same-named packages, three injectors in two files with doc comments, unnamed variadic parameters. Oracle: whenever wire reports success, wire_gen.go is written and the package compiles under the default tags together with a typed function-variable assignment per injector (same name, parameter types incl. variadic, result types). (Every other property's accepted programs are compiled too; a failure there is reported under that property.) Distinct = distinct rendered source.", len(c01Kinds), len(c01Params))
+	c.Coverage["rule"] = fmt.Sprintf("%d result type kinds (every basic kind, named and unnamed composites, aliases, generic instances incl. with lib type arguments, types of another package in value/pointer/slice/map-key/func positions, unsafe.Pointer, error) x provider shape (4) x injector shape (>= provider's needs) x %d parameter forms (none, named, blank, unnamed, variadic named/blank, lib-typed variadic, parameters named err/cleanup) x provider in the injector's package or another one; accessibility family: sets declared in another package that list an unexported provider, an unexported struct type, \"*\" or a name over unexported fields, FieldsOf an unexported field, a binding to an unexported interface; layout family: import needed only by a parameter type / zero value / value expression, same-named packages, three injectors in two files with doc comments, unnamed variadic parameters; imports under a user-chosen alias used only by a value expression or only by a copied declaration. Oracle: whenever wire reports success, wire_gen.go is written and the package compiles under the default tags together with a typed function-variable assignment per injector (same name, parameter types incl. variadic, result types). (Every other property's accepted programs are compiled too; a failure there is reported under that property.) Distinct = distinct rendered source.", len(c01Kinds), len(c01Params))
 	if len(cases) > 0 {
 		i := len(cases) / 2
 		c.Samples = append(c.Samples, map[string]interface{}{"case": cases[i].ID, "wire.go": cases[i].Files["wire.go"], "driver.go": cases[i].Files["driver.go"], "wire_gen.go": results[i].GenSrc[""]})
